@@ -34,6 +34,8 @@ struct Args {
     merge_part: Option<String>,
     from: u64,
     out: Option<String>,
+    sub_from: u64,
+    sub_to: u64,
 }
 
 fn parse_args() -> Args {
@@ -55,6 +57,8 @@ fn parse_args() -> Args {
         merge_part: None,
         from: 0,
         out: None,
+        sub_from: 0,
+        sub_to: 0,
     };
     let mut tier_from_cli = false;
     while let Some(x) = it.next() {
@@ -77,6 +81,8 @@ fn parse_args() -> Args {
             "--merge-part" => a.merge_part = Some(val()),
             "--from" => a.from = val().parse().unwrap_or_else(|_| usage()),
             "--out" => a.out = Some(val()),
+            "--sub-from" => a.sub_from = val().parse().unwrap_or_else(|_| usage()),
+            "--sub-to" => a.sub_to = val().parse().unwrap_or_else(|_| usage()),
             s if !s.starts_with("--") && a.file.is_none() => a.file = Some(s.to_string()),
             _ => usage(),
         }
@@ -146,19 +152,32 @@ fn default_runs_of(prop: &str, tier: Tier) -> u64 {
     }
 }
 
-fn scenario_json_of(prop: &str, run_seed: u64, tier: Tier) -> serde_json::Value {
-    fn g<W: World>(w: W, s: u64, t: Tier) -> serde_json::Value {
+/// `what`: "count" -> number of variants of the run's base scenario; "json" -> JSON of variant `sub`;
+/// "exec" -> execute variants `sub..sub_to` literally in this process (it may abort: that is the point).
+fn variant_tool(prop: &str, run_seed: u64, tier: Tier, what: &str, sub: u64, sub_to: u64) -> serde_json::Value {
+    fn g<W: World>(w: W, s: u64, t: Tier, what: &str, sub: u64, sub_to: u64) -> serde_json::Value {
         let mut r = rng::Rng::new(s);
-        let scn = w.generate(&mut r, t);
-        w.to_json(&scn)
+        let base = w.generate(&mut r, t);
+        match what {
+            "count" => serde_json::json!(w.variant_count(&base, t)),
+            "json" => w.to_json(&w.variant(&base, sub, t)),
+            _ => {
+                let prog = Progress::default();
+                let mut cov = Cov::new(false);
+                for k in sub..sub_to {
+                    let _ = w.check(&w.variant(&base, k, t), &mut cov, &prog);
+                }
+                serde_json::Value::Null
+            }
+        }
     }
     match prop {
-        "C03" => g(cursor::C03, run_seed, tier),
-        "C12" => g(cursor::C12, run_seed, tier),
-        "C16" => g(cursor::C16, run_seed, tier),
-        "C11" => g(integ::C11, run_seed, tier),
-        "C19" => g(bytesrc::C19, run_seed, tier),
-        "C18" => g(pipe::C18, run_seed, tier),
+        "C03" => g(cursor::C03, run_seed, tier, what, sub, sub_to),
+        "C12" => g(cursor::C12, run_seed, tier, what, sub, sub_to),
+        "C16" => g(cursor::C16, run_seed, tier, what, sub, sub_to),
+        "C11" => g(integ::C11, run_seed, tier, what, sub, sub_to),
+        "C19" => g(bytesrc::C19, run_seed, tier, what, sub, sub_to),
+        "C18" => g(pipe::C18, run_seed, tier, what, sub, sub_to),
         _ => serde_json::Value::Null,
     }
 }
@@ -174,6 +193,12 @@ fn main() {
         "digest" => {
             let prop = a.prop.clone().unwrap_or_else(|| usage());
             dispatch(&prop, &a, true)
+        }
+        "exec-variants" => {
+            let prop = a.prop.clone().unwrap_or_else(|| usage());
+            let rs = rng::run_seed(a.seed, &prop, a.from);
+            variant_tool(&prop, rs, a.tier, "exec", a.sub_from, a.sub_to);
+            0
         }
         "seqfind" => {
             let prop = a.prop.clone().unwrap_or_else(|| usage());
@@ -211,11 +236,34 @@ fn main() {
                 }
             }
             let rs = rng::run_seed(a.seed, &prop, lo);
-            let scn = scenario_json_of(&prop, rs, a.tier);
+            // fault-enumeration worlds: which variant of the base scenario aborts? (bisect again, in children)
+            let nvar = variant_tool(&prop, rs, a.tier, "count", 0, 0).as_u64().unwrap_or(1);
+            let var_aborts = |from: u64, to: u64| -> bool {
+                let st = std::process::Command::new(&exe)
+                    .args(["exec-variants", "--prop", &prop, "--tier", a.tier.name(), "--seed", &a.seed.to_string(), "--from", &lo.to_string(), "--sub-from", &from.to_string(), "--sub-to", &to.to_string()])
+                    .stdout(std::process::Stdio::null())
+                    .stderr(std::process::Stdio::null())
+                    .status();
+                !matches!(st.map(|s| s.code()), Ok(Some(0)) | Ok(Some(1)) | Ok(Some(2)))
+            };
+            let (mut vlo, mut vhi) = (0u64, nvar);
+            if nvar > 1 && var_aborts(vlo, vhi) {
+                while vhi - vlo > 1 {
+                    let mid = vlo + (vhi - vlo) / 2;
+                    if var_aborts(vlo, mid) {
+                        vhi = mid;
+                    } else {
+                        vlo = mid;
+                    }
+                }
+            } else {
+                vlo = 0;
+            }
+            let scn = variant_tool(&prop, rs, a.tier, "json", vlo, 0);
             let doc = serde_json::json!({
                 "property": prop, "class": "abort",
                 "detail": "the process terminated abnormally (abort / stack overflow / allocation failure) while executing this run",
-                "seed": rs, "base_seed": a.seed, "run_index": lo, "tier": a.tier.name(), "minimised": false,
+                "seed": rs, "base_seed": a.seed, "run_index": lo, "fault_variant": vlo, "tier": a.tier.name(), "minimised": false,
                 "scenario": scn,
             });
             if let Some(out) = &a.out {
